@@ -108,6 +108,12 @@ func expected(c *Cfg) []string {
 			vars["K"] = "var-" + stageNames[i]
 			vars["V"+stageNames[i]] = "y"
 		}
+		if k == "all" { // overrides with more entries than the task's own settings
+			for _, x := range []string{"1", "2", "3", "4", "5"} {
+				env["X"+x] = "ex" + x
+				vars["Y"+x] = "vy" + x
+			}
+		}
 		if k == "dir" || k == "all" {
 			dir = "/dir-" + stageNames[i]
 		}
@@ -133,6 +139,12 @@ func body(c *Cfg) func() {
 			}
 			if k == "dir" || k == "all" {
 				s.Dir = "/dir-" + stageNames[i]
+			}
+			if k == "all" {
+				for _, x := range []string{"1", "2", "3", "4", "5"} {
+					s.Env["X"+x] = "ex" + x
+					s.Variables["Y"+x] = "vy" + x
+				}
 			}
 			stages = append(stages, s)
 		}
